@@ -1341,7 +1341,7 @@ reply_parse(struct evdns_base *base, u8 *packet, int length)
 	}
 
 	if (!name_matches)
-		goto err;
+		return -1; /* not an answer to our question: ignore it */
 
 	/* We can allocate less for the reply data, but to do it we'll have
 	 * to parse the response. To simplify things let's just allocate
